@@ -111,7 +111,7 @@ func edTorsion(rng *rand.Rand) [][2]*big.Int {
 }
 
 func runC17(r *Run, rng *rand.Rand, thorough bool) {
-	r.Rule = "exact ops: crypto.ECPoint constructor/Add/ScalarMult/ScalarBaseMult/EightInvEight on btcec secp256k1 and dcrd edwards25519 vs the Lean model's own affine arithmetic; non-trivial = distinct op line on a non-identity input; direct assertions: every door (constructor, unflatten, JSON, Gob) accepts only canonical on-curve coordinates and round-trips, group laws on sampled triples, cofactor clearing on all 8 torsion points"
+	r.Rule = "exact ops: crypto.ECPoint constructor/Add/ScalarMult/ScalarBaseMult/EightInvEight on btcec secp256k1 and dcrd edwards25519 vs the Lean model's own affine arithmetic; non-trivial = distinct op line on a non-identity input; direct assertions: every door (constructor, unflatten, JSON, Gob) accepts only canonical on-curve coordinates and round-trips, group laws on sampled triples, cofactor clearing on all 8 torsion points, scalar multiplication of torsion and mixed-order edwards points by scalars around and beyond the subgroup order"
 	reps := 4
 	if thorough {
 		reps = 25
@@ -233,6 +233,23 @@ func runC17(r *Run, rng *rand.Rand, thorough bool) {
 			if err != nil {
 				r.Assert(false, "ECPoint.Add/torsion", "add-torsion-ok", nil)
 				continue
+			}
+			// scalars at and beyond the subgroup order act on the small-order component too: k·(P+T) = (k mod q)·P + (k mod 8)·T
+			edq := ed.Params().N
+			for si, sc := range scalarGrid(rng, edq) {
+				if !thorough && (si+k+rep)%4 != 0 {
+					continue
+				}
+				r.Do("ECPoint.ScalarMult/ed-mixed-order", true, "ec_smul", "ed", ePoint(mixed), eInt(sc))
+				if k > 0 {
+					r.Do("ECPoint.ScalarMult/ed-torsion", true, "ec_smul", "ed", ePoint(tp), eInt(sc))
+				}
+			}
+			if k > 0 {
+				qT := tp.ScalarMult(new(big.Int).Mod(edq, bi(8)))
+				r.Assert(mixed.ScalarMult(edq).Equals(qT), "ECPoint.ScalarMult/ed-order-times-mixed", "q·(P+T)=(q mod 8)·T", func() string {
+					return ePoint(mixed) + " * q -> " + ePoint(mixed.ScalarMult(edq)) + " want " + ePoint(qT)
+				})
 			}
 			g2, _, _ := r.Do("ECPoint.EightInvEight/mixed", true, "ec_8inv8", ePoint(mixed))
 			r.Assert(g2 == "ok "+ePoint(Pm), "ECPoint.EightInvEight/mixed", "cofactor-clearing-removes-small-order-component", func() string { return ePoint(mixed) + " -> " + g2 + " want " + ePoint(Pm) })
